@@ -70,6 +70,7 @@ func pathFacts(from, to, barrier *ssa.BasicBlock, limit int) ([]map[string]bool,
 				fixed, known = constBoolValue(cst), true
 			}
 			key := expr(cond)
+			condOf[key] = cond
 			for i, s := range b.Succs {
 				truth := (i == 0) != flip
 				if known {
@@ -196,6 +197,9 @@ func ruleC14_2(c *Ctx) {
 		c.undecided("ClusterNodes.parse: paths to acceptance", c.at(app), fmt.Sprintf("path enumeration incomplete (%d paths)", len(paths)))
 		return
 	}
+	// a filter moved into a predicate helper (`!c.admitNewNode(node, xs)`): each way the helper can give that answer
+	// contributes its own conditions
+	paths = c.P.expandHelperFacts(paths, 0)
 	type filter struct {
 		name string
 		ok   func(f map[string]bool) bool
@@ -821,4 +825,77 @@ func ruleC14_8(c *Ctx) {
 	if n == 0 {
 		c.bad("send on the refresh channel", p.pos(sread.Pos()), "probe replies are never handed to the refresh goroutine: the topology is never updated")
 	}
+}
+
+// expandHelperFacts replaces, in each path's facts, the outcome of a boolean helper call by the conditions of each
+// path through the helper that yields this outcome (one resulting path per such way).
+func (p *Prog) expandHelperFacts(paths []map[string]bool, depth int) []map[string]bool {
+	if depth > 1 {
+		return paths
+	}
+	var out []map[string]bool
+	for _, facts := range paths {
+		expanded := []map[string]bool{facts}
+		for key, truth := range facts {
+			cond, ok := condOf[key]
+			if !ok {
+				continue
+			}
+			call, ok := cond.(*ssa.Call)
+			if !ok {
+				continue
+			}
+			h := call.Call.StaticCallee()
+			if h == nil || !p.isHelper(h) || h.Signature.Results().Len() != 1 {
+				continue
+			}
+			if b, ok := h.Signature.Results().At(0).Type().Underlying().(*types.Basic); !ok || b.Kind() != types.Bool {
+				continue
+			}
+			bindCall(h, call.Call.Args)
+			var ways []map[string]bool
+			for _, r := range returnsReachable(h) {
+				ret := r.(*ssa.Return)
+				hp, _ := pathFacts(h.Blocks[0], ret.Block(), nil, 512)
+				if ret.Block() == h.Blocks[0] {
+					hp = []map[string]bool{{}}
+				}
+				val := results(ret)[0]
+				for _, hf := range hp {
+					w := map[string]bool{}
+					for k, v := range hf {
+						w[k] = v
+					}
+					if cst, isC := val.(*ssa.Const); isC && cst.Value != nil {
+						if constBoolValue(cst) != truth {
+							continue
+						}
+					} else {
+						w[expr(val)] = truth
+						condOf[expr(val)] = val
+					}
+					ways = append(ways, w)
+				}
+			}
+			if len(ways) == 0 {
+				continue
+			}
+			var next []map[string]bool
+			for _, base := range expanded {
+				for _, w := range ways {
+					m := map[string]bool{}
+					for k, v := range base {
+						m[k] = v
+					}
+					for k, v := range w {
+						m[k] = v
+					}
+					next = append(next, m)
+				}
+			}
+			expanded = next
+		}
+		out = append(out, expanded...)
+	}
+	return out
 }
